@@ -19,5 +19,5 @@ Report == i <= Len(Cases) =>
   IN IF v.ok THEN TRUE
      ELSE PrintT("REJECT " \o ToJson([id |-> c.id, at |-> v.at, why |-> v.why, construct |-> v.w.k, clause |-> v.w.cl,
                                       want |-> v.want, got |-> IF v.at <= Len(c.trace) THEN c.trace[v.at] ELSE NoEv,
-                                      decs |-> v.decs]))
+                                      decs |-> v.decs, b1 |-> v.b1, unb |-> v.unb]))
 =============================================================================
